@@ -220,3 +220,40 @@ def run_c13(run, scratch, seed, tier):
 
 
 PROPS["C13"] = {"props_file": "C13.v", "run": run_c13}
+
+
+# ---------------------------------------------------------------- C05
+def run_c05(run, scratch, seed, tier):
+    st = suites.alloc_suite(run, scratch, seed, tier)
+    run.add_suite("alloc_grid", st)
+    run.cov["rule"] = st["rule"]
+    est = suites.engine_suite(run, scratch, seed, sizes(tier, 150, 3000))
+    run.add_suite("engine_histories", est)
+
+
+PROPS["C05"] = {"props_file": "C05.v", "run": run_c05}
+
+
+# ---------------------------------------------------------------- C07
+def run_c07(run, scratch, seed, tier):
+    import gen_engine
+    prof = gen_engine.Profile(p_upd_false=0.15, p_bidoffer=0.7, p_comm=0.85)
+    book = lambda c, state, mults: []   # noqa: E731  (the booking oracle needs before/after: run below)
+    st = suites.engine_suite(run, scratch, seed, sizes(tier, 300, 6000), profile=prof, keep=True)
+    fails = 0
+    for c, ic in st.pop("_kept"):
+        f = oracles.c07_trade_booking(c, ic, suites.comm_fee)
+        if f:
+            fails += 1
+            if fails <= 3:
+                run.violation({"suite": "engine_histories", "case": c, "oracle": "C07 trade booking", "failures": f[:5]},
+                              "C07 oracle fails on implementation history %s: %s" % (c["name"], f[0]))
+    st["booking_oracle_failures"] = fails
+    run.add_suite("engine_histories", st)
+    run.cov["rule"] = st["rule"]
+    bst = backtest_suite(run, scratch, seed, sizes(tier, 200, 3000),
+                         oracle_fns=[("C07 ledger", oracles.c07_ledger)])
+    run.add_suite("backtest_runs", bst)
+
+
+PROPS["C07"] = {"props_file": "C07.v", "run": run_c07}
